@@ -11,7 +11,7 @@ SAN = re.compile(r"(ERROR: AddressSanitizer|ERROR: LeakSanitizer|runtime error:|
 
 def setup(src):
     e2v.build_harness("h_dirwalk", src)
-    e2v.build_driver("dirwalk", ["theories/Parsers/DirWalk.vo", "theories/Parsers/EaValue.vo"], ["dirwalk_model"])
+    e2v.build_driver("dirwalk", ["theories/Parsers/DirWalk.vo", "theories/Parsers/EaValue.vo", "theories/Robust/Restart.vo", "theories/Robust/ItableLen.vo"], ["dirwalk_model"])
     e2v.ensure_build("asan")
 
 
@@ -317,6 +317,109 @@ def ea_value_corr(src, mexe, seed, n):
     return rows, bad
 
 
+def robust_corr(src, mexe, seed, tier):
+    """(a) restarts of e2fsck on devices with k missing inode tables, read-only and writing, vs Robust.Restart.restarts;
+    (b) the leading run of inode-table blocks that e2image -r copies for a group, for chosen bg_itable_unused, vs
+    Robust.ItableLen.itable_len_new"""
+    rows, bad = 0, []
+    env = e2v.tool_env(src)
+    ask = lambda line: subprocess.run([mexe], input=(line + "\n").encode(), stdout=subprocess.PIPE, timeout=30).stdout.decode().strip()
+    for name in ("ext4_1k", "ext4_nocsum", "ext2_noflex") + (("ext3", "ext4_2k_64") if tier != "quick" else ()):
+        cfg = [c for c in corrupt.IMG_CONFIGS if c[0] == name][0]
+        base = corrupt.build_image(src, WORK, cfg[0], cfg[1], cfg[2], 1)
+        fs = Fs(base)
+        G = fs.groups_count
+        for k in range(0, min(G, 3) + 1):
+            for which in ("last", "first"):
+                if k == 0 and which == "first":
+                    continue
+                groups = list(range(G - k, G)) if which == "last" else list(range(k))
+                for ro, mode in ((1, "-fn"), (0, "-fy")):
+                    d = bytearray(fs.d)
+                    for g in groups:
+                        struct.pack_into("<I", d, corrupt.gd_loc(fs, g) + 8, 0)
+                        if fs.desc_size >= 64:
+                            struct.pack_into("<I", d, corrupt.gd_loc(fs, g) + 0x28, 0)
+                        corrupt.fix_gd_csum(fs, d, g)
+                    # the backup descriptors say the same (otherwise e2fsck takes the tables' locations from them and nothing is missing)
+                    prim = fs.desc_block_loc(0) * fs.bs
+                    for bg in range(1, G):
+                        if fs.bg_has_super(bg):
+                            o = (fs.group_first_block(bg) + 1) * fs.bs
+                            d[o:o + fs.desc_blocks * fs.bs] = d[prim:prim + fs.desc_blocks * fs.bs]
+                    img = os.path.join(WORK, "rs_%s.img" % name)
+                    open(img, "wb").write(d)
+                    log = img + ".out"
+                    with open(log, "wb") as lf:
+                        try:
+                            rc = subprocess.run([os.path.join(src, "e2fsck/e2fsck"), mode, img], env=env, stdout=lf, stderr=subprocess.STDOUT,
+                                                stdin=subprocess.DEVNULL, timeout=60).returncode
+                        except subprocess.TimeoutExpired:
+                            rc = -9
+                    n_restart = 0
+                    with open(log, "rb") as lf:
+                        for line in lf:
+                            n_restart += line.startswith(b"Restarting e2fsck from the beginning")
+                            if n_restart > 50:
+                                break
+                    os.unlink(log)
+                    os.unlink(img)
+                    mo = ask("RS %d %d" % (ro, k))
+                    rows += 1
+                    if rc == -9 or mo != str(n_restart):
+                        bad.append({"what": "restarts", "base": name, "groups_without_inode_table": groups, "mode": mode, "e2fsck_exit": rc,
+                                    "restarts_observed": "more than 50 (killed)" if n_restart > 50 else n_restart, "model": mo})
+    # (b)
+    cfg = [c for c in corrupt.IMG_CONFIGS if c[0] == "ext4_nocsum"][0]
+    base = corrupt.build_image(src, WORK, cfg[0], cfg[1], cfg[2], 1)
+    fs = Fs(base)
+    ipb = fs.bs // fs.inode_size
+    n = fs.itb_per_group
+    g = 0
+    it = fs.groups[g]["inode_table"]
+    real_unused = struct.unpack_from("<H", fs.d, corrupt.gd_loc(fs, g) + 28)[0]
+    d0 = bytearray(fs.d)
+    first_free_blk = (fs.inodes_per_group - real_unused + ipb - 1) // ipb
+    for j in range(first_free_blk, n):          # make the unused part of the table visible in the copy
+        for q in range(ipb):
+            d0[(it + j) * fs.bs + q * fs.inode_size + 4: (it + j) * fs.bs + q * fs.inode_size + 8] = b"\xAA\xAA\xAA\x0A"
+    ipg = fs.inodes_per_group
+    vals = [0, 1, ipb - 1, ipb, real_unused, ipg - ipb, ipg - 1, ipg, ipg + 1, ipg + ipb, 2 * ipg, 0xFFFF]
+    r = e2v.rng(seed, "c06il")
+    vals += [r.randrange(0, 0x10000) for _ in range(4 if tier == "quick" else 60)]
+    for unused in vals:
+        d = bytearray(d0)
+        struct.pack_into("<H", d, corrupt.gd_loc(fs, g) + 28, unused)
+        corrupt.fix_gd_csum(fs, d, g)
+        img = os.path.join(WORK, "il.img")
+        out = os.path.join(WORK, "il.raw")
+        open(img, "wb").write(d)
+        if os.path.exists(out):
+            os.unlink(out)
+        try:
+            rc = subprocess.run([os.path.join(src, "misc/e2image"), "-r", img, out], env=env, stdout=subprocess.DEVNULL, stderr=subprocess.DEVNULL,
+                                stdin=subprocess.DEVNULL, timeout=60).returncode
+        except subprocess.TimeoutExpired:
+            rc = -9
+        copied = 0
+        if rc == 0 and os.path.exists(out):
+            with open(out, "rb") as f:
+                for j in range(n):
+                    f.seek((it + j) * fs.bs)
+                    if f.read(fs.bs) != bytes(d[(it + j) * fs.bs:(it + j + 1) * fs.bs]):
+                        break
+                    copied += 1
+        mo = ask("IL %d %d %d" % (n, unused, ipb))
+        rows += 1
+        if rc != 0 or mo != str(copied):
+            bad.append({"what": "inode table blocks in the raw image", "base": "ext4_nocsum", "group": g, "table_blocks": n, "bg_itable_unused": unused,
+                        "inodes_per_block": ipb, "e2image_exit": rc, "leading_blocks_copied": copied, "model": mo})
+        for p_ in (img, out):
+            if os.path.exists(p_):
+                os.unlink(p_)
+    return rows, bad
+
+
 def dirwalk_corr(src, hexe, mexe, seed, n):
     """library directory walk vs the model on directory blocks with damaged record headers"""
     r = e2v.rng(seed, "c06d")
@@ -368,7 +471,7 @@ def run(res, replay=None):
     pr = e2v.coq_property("C06")
     res.add_proof(pr)
     hexe = e2v.build_harness("h_dirwalk", src)
-    mexe = e2v.build_driver("dirwalk", ["theories/Parsers/DirWalk.vo", "theories/Parsers/EaValue.vo"], ["dirwalk_model"])
+    mexe = e2v.build_driver("dirwalk", ["theories/Parsers/DirWalk.vo", "theories/Parsers/EaValue.vo", "theories/Robust/Restart.vo", "theories/Robust/ItableLen.vo"], ["dirwalk_model"])
     res.cov["trusted_base"] = e2v.TRUSTED_COMMON + [
         "clang/gcc AddressSanitizer + UndefinedBehaviorSanitizer build of the working tree (asan variant): what they do not instrument is not observed",
         "a SIGKILL timeout of 60 s per invocation stands for 'hang'",
@@ -382,6 +485,7 @@ def run(res, replay=None):
         corrupt.build_image(src, WORK, nm, op, sz, 1)
     rows, dbad = dirwalk_corr(src, hexe, mexe, seed, 40 if tier == "quick" else 2000)
     erows, ebad = ea_value_corr(src, mexe, seed, 6 if tier == "quick" else 150)
+    rrows, rbad = robust_corr(src, mexe, seed, tier)
     n_img, n_j, n_a = (94, 16, 20) if tier == "quick" else (4000, 1500, 800)
     with concurrent.futures.ThreadPoolExecutor(14) as ex:
         o1 = list(ex.map(lambda i: image_case(src, asan, i, seed, tier), range(n_img)))
@@ -407,6 +511,11 @@ def run(res, replay=None):
     res.cov["correspondence"]["ea_value_mismatches"] = len(ebad)
     res.cov["correspondence"]["ea_value_compared"] = "attribute-block entries with chosen (e_value_offs, e_value_size), block checksum valid: e2fsck -fn reports PR_1_EA_BAD_VALUE exactly when the extracted ea_value_ok rejects"
     res.add_obligation("e2fsck's attribute value check = ea_value_ok on the whole grid", not ebad)
+    res.cov["correspondence"]["restart_and_table_length_runs"] = rrows
+    res.cov["correspondence"]["restart_and_table_length_mismatches"] = len(rbad)
+    res.cov["correspondence"]["restart_and_table_length_compared"] = ("e2fsck -fn / -fy on devices with 0..3 inode-table locations zeroed (descriptor checksums valid): number of "
+        "'Restarting e2fsck' lines vs Restart.restarts; e2image -r for 16+ values of bg_itable_unused: leading inode-table blocks present in the raw image vs ItableLen.itable_len_new")
+    res.add_obligation("restart protocol and table-length arithmetic = models", not rbad)
 
     def sig(recipe, b):
         w = b[0]["why"]
@@ -426,6 +535,9 @@ def run(res, replay=None):
     for c in ebad[:1]:
         res.violation("correspondence", {"entry": c, "note": "e2fsck pass 1 and the model disagree on an attribute value's bounds (theorem ea_value_check_safe is about the model)"}, has_input=True,
                       signature="c06ea:" + hashlib.sha256(json.dumps(c).encode()).hexdigest()[:12])
-    if not pr["ok"] and not bad and not dbad and not ebad:
+    for c in rbad[:2]:
+        res.violation("correspondence", {"run": c, "note": "the tool and the model disagree (theorems restart_protocol_terminates / itable_len_bounded are about the model)"}, has_input=True,
+                      signature="c06rb:" + hashlib.sha256(json.dumps(c).encode()).hexdigest()[:12])
+    if not pr["ok"] and not bad and not dbad and not ebad and not rbad:
         res.violation("proof", {"theorem_file": "coq/theories/Properties_C06.v", "failed_at": pr["failed_at"],
                                 "forbidden": pr["forbidden"], "log_tail": pr["log_tail"][-1500:]}, has_input=False)
